@@ -61,7 +61,11 @@ func (m *Model) RunSharedWrites(s *Sink, rule string, roots []*ssa.Function, mod
 		for _, w := range sum.writes {
 			switch w.o.kind {
 			case oGlobal:
-				if isSyncPrimitive(w.o.g) {
+				synced := strings.HasPrefix(w.kind, "call:(*sync.") || strings.HasPrefix(w.kind, "call:(*sync/atomic.")
+				if synced && mode == "race" {
+					continue // a synchronised container / atomic: not a data race (history is C16's business)
+				}
+				if isSyncPrimitive(w.o.g) && !synced {
 					continue
 				}
 				globals[w.o.g.Pkg.Pkg.Name()+"."+w.o.g.Name()] = append(globals[w.o.g.Pkg.Pkg.Name()+"."+w.o.g.Name()], w)
